@@ -57,6 +57,7 @@ M = [
  ("C13-bounds-ignored", "optimize/optimizer.py", "scipy.optimize.minimize(fquality, clamp.params, bounds=clamp.bounds, method=method)", "scipy.optimize.minimize(fquality, clamp.params, method=method)", ["C13"]),
  ("C13-rotation-link-sign", "optimize/links.py", "        if np.dot(cross_rad, self.axis) < 0:\n            angle = -angle", "        pass", ["C13"]),
  ("C13-sensitivity-steps-over-bounds", "optimize/optimizer.py", "                params = np.clip(params, lower, upper)\n", "                pass\n", ["C13"]),
+ ("C13-probe-degenerate-escapes", "optimize/optimizer.py", "        except ValueError:\n            # a degenerate cell was met while probing", "        except KeyError:\n            # a degenerate cell was met while probing", ["C13"]),
  ("C13-sketch-backport-missing", "optimize/optimizer.py", "        self.sketch.update(self.grid.points)", "        pass", ["C13"]),
  ("C06-facemap-left", "util/constants.py", '"left": (4, 0, 3, 7),', '"left": (4, 0, 3, 6),', ["C06"]),
  ("C06-facemap-front-back-swapped", "util/constants.py", '"front": (4, 5, 1, 0),\n    "back": (7, 6, 2, 3),', '"front": (7, 6, 2, 3),\n    "back": (4, 5, 1, 0),', ["C06"]),
